@@ -81,8 +81,9 @@ def observe(world, readonly):
     cells = world.cells            # cell id -> list of arrays held by the caller / stored by the history
     flat = [(i, a) for i, arrs in enumerate(cells) for a in arrs]
     before = [root_of(a).tobytes() for _, a in flat]
+    xbefore = [a.tobytes() for _, a in world.extra]
     if readonly:
-        set_readonly([a for _, a in flat])
+        set_readonly([a for _, a in flat] + [a for _, a in world.extra])
     raised, exc, rets, ro_hit = False, None, [], False
     try:
         rets = world.call()
@@ -92,10 +93,17 @@ def observe(world, readonly):
             ro_hit = True
     after = [root_of(a).tobytes() for _, a in flat]
     changed = sorted({i for (i, _), b, a in zip(flat, before, after) if a != b})
+    changed_extra = [lab for (lab, a), b in zip(world.extra, xbefore) if a.tobytes() != b]
     slots = None
+    pos_bad = None
     if not raised:
         slots = [as_list(r) for r in rets] + [as_list(world.attr(a)) for a in world.obs_attrs]
-    return dict(raised=raised, exc=exc, changed=changed, slots=slots, ro_hit=ro_hit)
+        if world.pos_expect is not None:
+            have = as_list(world.attr(A_POS)) or []
+            want = [np.asarray(x, dtype=float) for x in (world.pos_expect if isinstance(world.pos_expect, tuple) else [world.pos_expect])]
+            if len(have) != len(want) or any(h.size != x.size or not np.array_equal(h.ravel(), x.ravel()) for h, x in zip(have, want)):
+                pos_bad = "the positions stored by the object differ from the positions given"
+    return dict(raised=raised, exc=exc, changed=changed, slots=slots, ro_hit=ro_hit, changed_extra=changed_extra, pos_bad=pos_bad)
 
 
 def expose_alias(world, obs, i, k):
@@ -142,6 +150,10 @@ def compare(pred, obs, world):
     names = world.cell_names
     if obs["ro_hit"]:
         return "in-place write into a read-only caller/stored array: %s" % obs["exc"], None
+    if obs.get("changed_extra"):
+        return "contents changed: %s" % obs["changed_extra"], None
+    if obs.get("pos_bad"):
+        return obs["pos_bad"], None
     if obs["changed"]:
         if obs["changed"] != pred["written"]:
             return "contents changed: %s" % [names[i] for i in obs["changed"]], None
@@ -302,7 +314,8 @@ def run_case(ctx, drv, name, cfg, rng, variant, readonly, stats):
         ctx.violation("probe: %s cfg=%s (%s)" % (name, cfg, "read-only arrays" if readonly else "byte-wise comparison"),
                       "%s %s: %s" % (name, E.describe(name, cfg), viol),
                       dict(entry=name, cfg=cfg, variant=variant, readonly=readonly, options=E.describe(name, cfg),
-                           observed=dict(changed=[world.cell_names[i] for i in obs["changed"]], exc=obs["exc"]),
+                           observed=dict(changed=[world.cell_names[i] for i in obs["changed"]] + list(obs.get("changed_extra") or []),
+                                         stored_positions=obs.get("pos_bad"), exc=obs["exc"]),
                            predicted=pred),
                       key=cfg_key(name, cfg) + ":write")
     elif tie:
@@ -571,6 +584,8 @@ class World:
         self.nargs = nargs
         self.unpredicted_aliases = []
         self.other_mismatch = None
+        self.extra = []             # (label, array): arrays returned by caller-supplied callables - read-only inputs
+        self.pos_expect = None      # positions the object must hold after the call (values)
         self.result_probe = None    # optional: () -> array computed from the stored state
         self.cells = [[] for _ in range(nargs)]
         self.cell_names = ["arg%d" % i for i in range(nargs)]
@@ -667,13 +682,32 @@ def mk_lay(values, lay, variant, reshape=True, lead=0, ndarray_only=False):
     return v, [v]
 
 
-def mtn_kwargs(on, vector=False):
+def mtn_kwargs(on, vector=False, variant=0, w=None, const_mean=False):
+    """mean / trend / normalizer of a configuration with the digit 'mean+trend+normalizer' on.
+    realisation 0: scalar mean, a trend callable that returns a NEW array, LogNormal normalizer;
+    realisation 1: identity normalizer, non-zero scalar mean and a trend callable that returns a ROW OF THE POSITIONS
+                   it was given (an existing array: the caller's coordinate row or the object's stored positions);
+    realisation 2: identity normalizer, mean and trend callables that return (slices of) arrays held by the caller in
+                   a closure (values pre-computed at the points, regression kriging style).
+    Arrays returned by callables are read-only inputs: they are registered in w.extra and must keep their bytes."""
     import gstools as gs
     if not on:
         return {}
     if vector:
         return dict(mean=0.5, trend=0.1, normalizer=gs.normalizer.LogNormal())
-    return dict(mean=0.3, trend=(lambda *x: 0.01 * x[0]), normalizer=gs.normalizer.LogNormal())
+    if variant == 0 or w is None:
+        return dict(mean=0.3, trend=(lambda *x: 0.01 * x[0]), normalizer=gs.normalizer.LogNormal())
+    if variant == 1:
+        if CUR_VIEW == 1 and not const_mean:     # the MEAN callable hands back the coordinate row, constant trend
+            return dict(mean=(lambda *x: x[0]), trend=0.5)
+        return dict(mean=3.0, trend=(lambda *x: x[0]))
+    big_t = np.linspace(0.5, 1.5, 160)
+    big_m = np.linspace(2.0, 3.0, 160)
+    w.extra.append(("array returned by the trend callable", big_t))
+    if const_mean:
+        return dict(mean=3.0, trend=(lambda *x: big_t[:np.size(x[0])]))
+    w.extra.append(("array returned by the mean callable", big_m))
+    return dict(mean=(lambda *x: big_m[:np.size(x[0])]), trend=(lambda *x: big_t[:np.size(x[0])]))
 
 
 def f32exact(a):
@@ -773,7 +807,7 @@ def real_vario_estimate(cfg, rng, variant):
         kw["no_data"] = -999.0
     if sampling:
         kw.update(sampling_size=[4, 3, 5][nopt], sampling_seed=3 + nopt)
-    kw.update(mtn_kwargs(mtn))
+    kw.update(mtn_kwargs(mtn, variant=variant, w=w))
     scale = gs.KM_SCALE if geo else gs.RADIAN_SCALE
     if nopt == 1:       # non-default numeric options
         kw.update(estimator="cressie", bandwidth=2.0, angles_tol=0.3)
@@ -845,10 +879,13 @@ def field_history(w, obj, rng, structured, hist, call0, extra_pre=(), st=False):
         for a, o, nm in extra_pre:
             w.pre(a, [getattr(o, nm)], label=nm)
     if hist == 1:
+        w.pos_expect = pv0
         return (tuple(a.copy() for a in pv0) if structured else pv0.copy()), fshape
     if hist == 2:
         pv, _ = base_values(rng, structured, other=True, st=st)
+        w.pos_expect = pv
         return pv, fshape
+    w.pos_expect = pv0
     if hist == 3:
         return None, fshape
     return pv0, fshape
@@ -872,7 +909,7 @@ def real_field_call(cfg, rng, variant):
     play, fld, pp, store, mtn, structured, hist = cfg
     w = World("field_call", 2)
     st = variant == 2       # realisation 2: lat-lon + time model (time anisotropy != 1), positions (lat, lon, t)
-    obj = gs.field.Field(the_model(st=st), **mtn_kwargs(mtn))
+    obj = gs.field.Field(the_model(st=st), **mtn_kwargs(mtn, variant=variant, w=w))
     w.obj = obj
     mt = "structured" if structured else "unstructured"
     pv, fshape = field_history(w, obj, rng, structured, hist, lambda p: obj(p, mesh_type=mt),
@@ -892,10 +929,11 @@ def real_post_field(cfg, rng, variant):
     import gstools as gs
     lay, process, save, mtn = cfg
     w = World("post_field", 1)
-    obj = gs.field.Field(the_model(), **mtn_kwargs(mtn))
+    obj = gs.field.Field(the_model(), **mtn_kwargs(mtn, variant=variant, w=w))
     w.obj = obj
     pv, fshape = base_values(rng, False)
     obj(pv)
+    w.pos_expect = pv
     arr, h = mk_lay(rng.normal(size=fshape), lay, variant)
     w.arg(0, "field", h)
     w.pre(A_POS, [obj.pos]); w.pre(A_FIELD, [obj.field])
@@ -923,9 +961,10 @@ def real_mnt_tool(which):
             arr, h = mk_lay(vals, 0 if lay < 2 else 2, 0 if lay == 2 else variant % 2, reshape=False)
         w.arg(1, "field", h)
         fn = getattr(gs.normalizer, which)
+        mkw = mtn_kwargs(mtn, variant=variant, w=w)
         w.nret = 1
         w.call = lambda: [fn(pos, arr, mesh_type="structured" if structured else "unstructured",
-                             check_shape=bool(check_shape), stacked=bool(stacked), **mtn_kwargs(mtn))]
+                             check_shape=bool(check_shape), stacked=bool(stacked), **mkw)]
         return w
     return real
 
@@ -973,7 +1012,10 @@ def real_transform(cfg, rng, variant):
     w = World("transform", 2)
     kw = dict(mean=1.0)
     if mtn:
-        kw.update(trend=(lambda *x: 0.01 * x[0]), normalizer=gs.normalizer.LogNormal())
+        if variant == 0:
+            kw.update(trend=(lambda *x: 0.01 * x[0]), normalizer=gs.normalizer.LogNormal())
+        else:   # identity normalizer, trend callable returning an existing array (position row / closure-held array)
+            kw.update({k2: v2 for k2, v2 in mtn_kwargs(1, variant=variant, w=w, const_mean=True).items() if k2 == "trend"})
     structured = variant == 2
     pv, fshape = base_values(rng, structured)
     mt = "structured" if structured else "unstructured"
@@ -1060,7 +1102,7 @@ def real_srf_call(cfg, rng, variant):
         gkw.update(mode_no=20)
     st = variant == 2 and gen == 0 and pvd == 0     # lat-lon + time model (RandMeth, no upscaling)
     obj = gs.SRF(the_model(st=st), seed=int(rng.integers(1 << 30)), upscaling="coarse_graining", **gkw,
-                 **mtn_kwargs(mtn, vector=gen == 1))
+                 **mtn_kwargs(mtn, vector=gen == 1, variant=variant, w=w))
     w.obj = obj
     mt = "structured" if structured else "unstructured"
     pv, fshape = field_history(w, obj, rng, structured, hist, lambda p: obj(p, mesh_type=mt),
@@ -1110,6 +1152,7 @@ def real_krige_condition(cfg, rng, variant):
         ce, h = mk_lay(rng.uniform(0.05, 0.2, n), 0 if err == 2 else 2, variant if err == 2 else 0)
         kw["cond_err"] = ce; w.arg(3, "cond_err", h)
     kw["fit_variogram"] = bool(fitv)
+    mkw = mtn_kwargs(mtn, variant=variant, w=w)
     probe_pos = cond_values(rng, 4, st)[0]
     getk = {}
     w.result_probe = lambda: getk["k"]()(probe_pos, ext_drift=(np.linspace(0.0, 1.0, 4) if ext else None),
@@ -1124,7 +1167,7 @@ def real_krige_condition(cfg, rng, variant):
     if recond:
         cp0, cv0 = cond_values(rng, n, st)
         k0 = gs.krige.Krige(the_model(nugget=0.1 * variant, st=st), cp0, cv0, ext_drift=(rng.normal(size=n) if ext else None),
-                            **ckw, **mtn_kwargs(mtn))
+                            **ckw, **mkw)
         w.obj = k0
         for a in (A_CPOS, A_CVAL, A_CEXT, A_KPOS, A_KMAT):
             w.pre(a, [getattr(k0, ATTR_NAME[a])])
@@ -1145,7 +1188,7 @@ def real_krige_condition(cfg, rng, variant):
         getk["k"] = lambda: holder["k"]
 
         def call():
-            holder["k"] = gs.krige.Krige(the_model(nugget=0.1 * variant, st=st), cp, cv, **kw, **ckw, **mtn_kwargs(mtn))
+            holder["k"] = gs.krige.Krige(the_model(nugget=0.1 * variant, st=st), cp, cv, **kw, **ckw, **mkw)
             return []
         w.call = call
     return w
@@ -1164,7 +1207,7 @@ def real_krige_call(cfg, rng, variant):
     cpv, cvv = cond_values(rng, n, st)
     ckw = [{}, dict(exact=True, pseudo_inv_type="pinvh"), dict(unbiased=False, cond_err=rng.uniform(0.05, 0.2, n))][variant]
     k = gs.krige.Krige(the_model(nugget=0.1 * variant, st=st), cpv, cvv, ext_drift=(rng.normal(size=n) if ext else None),
-                       **ckw, **mtn_kwargs(mtn))
+                       **ckw, **mtn_kwargs(mtn, variant=variant, w=w))
     w.obj = k
     mt = "structured" if structured else "unstructured"
     for a in (A_CPOS, A_CVAL, A_CEXT, A_KPOS, A_KMAT):
@@ -1202,7 +1245,8 @@ def real_condsrf_call(cfg, rng, variant):
     stk = variant == 2
     cpv, cvv = cond_values(rng, n, stk)
     cext = rng.normal(size=n) if ext else None
-    k = gs.krige.Krige(the_model(nugget=0.2 if nugget else 0.0, st=stk), cpv, cvv, ext_drift=cext, **mtn_kwargs(mtn))
+    mkw = mtn_kwargs(mtn, variant=variant, w=w)
+    k = gs.krige.Krige(the_model(nugget=0.2 if nugget else 0.0, st=stk), cpv, cvv, ext_drift=cext, **mkw)
     gseed = int(rng.integers(1 << 30))
     c = gs.CondSRF(k, seed=gseed, mode_no=20)
     w.obj = c
@@ -1231,6 +1275,7 @@ def real_condsrf_call(cfg, rng, variant):
         pv = None
     else:
         pv = pv0
+    w.pos_expect = pv0 if pv is None else pv
     pos = mk_pos_opt(w, pv, play, variant, structured)
     st = {0: True, 1: ["x", "y", "z"], 2: False}[store]
     if ext:
@@ -1244,7 +1289,7 @@ def real_condsrf_call(cfg, rng, variant):
             """conditioned field on the stored positions with the caller's (possibly edited) drift array minus the
             field of a FRESH CondSRF with the same conditions, seed and drift: zero unless stale kriging is reused"""
             got = c(seed=11, ext_drift=ekw["ext_drift"], store=False, krige_store=False)
-            k2 = gs.krige.Krige(the_model(nugget=0.2 if nugget else 0.0, st=stk), cpv, cvv, ext_drift=cext, **mtn_kwargs(mtn))
+            k2 = gs.krige.Krige(the_model(nugget=0.2 if nugget else 0.0, st=stk), cpv, cvv, ext_drift=cext, **mkw)
             c2 = gs.CondSRF(k2, seed=gseed, mode_no=20)
             ref = c2(k.pos, seed=11, mesh_type=k.mesh_type, ext_drift=np.array(ekw["ext_drift"], dtype=float),
                      store=False, krige_store=False)
